@@ -61,7 +61,7 @@ struct Gen
 		if (depth >= maxDepth || budget <= 0) { if (r.chance(40)) e << (Xml)XmlText(toStr(randText(r, 20))); return e; }
 		int shape = r.below(10);
 		if (shape < 2) return e;                                     // empty element
-		if (shape < 4) { e << (Xml)XmlText(toStr(randText(r, 40))); return e; }   // sole text
+		if (shape < 4) { e << (Xml)XmlText(toStr(randText(r, r.chance(4) ? 2500 : 40))); return e; }   // sole text (sometimes long)
 		int nk = 1 + r.below(depth < 3 ? 5 : 3);
 		for (int i = 0; i < nk && budget > 0; i++)
 		{
